@@ -325,3 +325,106 @@ def simulate(nodes, n_threads, schedule, rwlocks):
         if nodes[pc[i]].op[0] == "end" and st["fetch_active"] > 0:
             st["ret_during_fetch"] = True
     return st
+
+
+class GModel:
+    """Generic BMC over threads with (possibly different) operation automata.
+
+    progs: list (one per thread) of node lists (from build_automaton);
+    init:  dict name -> z3 value (shared + per-thread state, WITHOUT the pcs);
+    sem:   function(node, state, tid) -> (enabled BoolRef, updates dict, next_pc expr or None for the
+           automaton's unconditional successor);
+    watch: names of state variables reported in a decoded schedule.
+    """
+
+    def __init__(self, progs, init, sem, steps, watch=()):
+        self.progs = progs
+        self.k = len(progs)
+        self.T = steps
+        self.sem = sem
+        self.watch = list(watch)
+        self.solver = z3.SolverFor("QF_BV")
+        self.solver.set("timeout", 900000)
+        self.queries = 0
+        self.solver_time = 0.0
+        s = dict(init)
+        for i in range(self.k):
+            s["pc%d" % i] = IV(0)
+        self.states = [s]
+        self.sched = []
+        for t in range(self.T):
+            ch = z3.BitVec("gsched_%d" % t, W)
+            self.sched.append(ch)
+            self.solver.add(z3.Or(ch == IV(-1), z3.ULT(ch, IV(self.k))))
+            if t > 0:
+                self.solver.add(z3.Implies(self.sched[t - 1] == IV(-1), ch == IV(-1)))
+            cases = []
+            for i, nodes in enumerate(progs):
+                for n in nodes:
+                    c = z3.And(ch == IV(i), s["pc%d" % i] == IV(n.id))
+                    if n.op[0] == "end":
+                        self.solver.add(z3.Not(c))
+                        continue
+                    en, up, nxt = sem(n, s, i)
+                    if nxt is None:
+                        succ = n.next.get(None)
+                        nxt = IV(succ.id) if succ is not None else IV(-2)
+                    self.solver.add(z3.Implies(c, en))
+                    self.solver.add(z3.Implies(c, nxt != IV(-2)))
+                    up = dict(up)
+                    up["pc%d" % i] = nxt
+                    cases.append((c, up))
+            new = {}
+            for v in s:
+                expr = s[v]
+                for c, up in cases:
+                    if v in up:
+                        expr = z3.If(c, up[v], expr)
+                nv = z3.Const("%s#%d" % (v, t + 1), s[v].sort())
+                self.solver.add(nv == expr)
+                new[v] = nv
+            s = new
+            self.states.append(s)
+
+    def at_end(self, s, i):
+        ends = [n.id for n in self.progs[i] if n.op[0] == "end"]
+        return z3.Or([s["pc%d" % i] == IV(e) for e in ends]) if ends else z3.BoolVal(False)
+
+    def at_op(self, s, i, opname):
+        ids = [n.id for n in self.progs[i] if n.op[0] == opname]
+        return z3.Or([s["pc%d" % i] == IV(e) for e in ids]) if ids else z3.BoolVal(False)
+
+    def check(self, bad_of_state, name, final_only=True, extra=None):
+        self.queries += 1
+        t0 = time.time()
+        self.solver.push()
+        if extra is not None:
+            self.solver.add(extra)
+        if final_only:
+            self.solver.add(bad_of_state(self.states[-1]))
+        else:
+            self.solver.add(z3.Or([bad_of_state(s) for s in self.states]))
+        r = self.solver.check()
+        trace = None
+        if r == z3.sat:
+            trace = self.decode(self.solver.model())
+        self.solver.pop()
+        self.solver_time += time.time() - t0
+        if r == z3.unknown:
+            raise mir.Inconclusive("z3 unknown on MC query %s" % name)
+        return trace
+
+    def decode(self, m):
+        out = []
+        for t, ch in enumerate(self.sched):
+            i = m.eval(ch, model_completion=True).as_long()
+            if i == NONE:
+                continue
+            pc = m.eval(self.states[t]["pc%d" % i], model_completion=True).as_long()
+            node = self.progs[i][pc]
+            st = self.states[t + 1]
+            row = {"step": t, "thread": i, "op": " ".join(str(x) for x in node.op)}
+            for w in self.watch:
+                row[w] = str(m.eval(st[w], model_completion=True))
+            out.append(row)
+        return out
